@@ -201,7 +201,9 @@ class Zoo:
             __tablename__ = "nowner"
             id = C(I, primary_key=True)
             name = C(S(30))
-            nodes = rel("Node")
+            # one-directional one-to-many; with the tree knob "all" it cascades deletes
+            # (delete cascade without delete-orphan)
+            nodes = rel("Node", cascade="all" if tree_cascade == "all" else "save-update, merge")
 
         class CycA(Base):
             __tablename__ = "cyc_a"
@@ -1221,9 +1223,10 @@ class Interp:
                     if o in n.tags:
                         n.tags.remove(o)
                 acts.append(act)
-        if type(o).__name__ == "Node":
-            st = sa.inspect(o)
-            nodes = [o] + [o_ for o_, m_, st_, d_ in st.mapper.cascade_iterator("delete", st) if type(o_).__name__ == "Node"]
+        st = sa.inspect(o)
+        nodes = ([o] if type(o).__name__ == "Node" else []) + [
+            o_ for o_, m_, st_, d_ in st.mapper.cascade_iterator("delete", st) if type(o_).__name__ == "Node"]
+        if nodes:
             for n in nodes:
                 if n.id is None:
                     continue
